@@ -68,7 +68,10 @@ fn read_or(p: &str) -> Option<Vec<u8>> { std::fs::read(p).ok() }
 
 fn manifest_mtime() -> i64 {
     use std::os::unix::fs::MetadataExt;
-    std::fs::metadata("build.ninja").map(|m| m.mtime()).unwrap_or(-1)
+    // the manifest and the generated fragment it may include
+    let a = std::fs::metadata("build.ninja").map(|m| m.mtime()).unwrap_or(-1);
+    let b = std::fs::metadata("frag.ninja").map(|m| m.mtime()).unwrap_or(-1);
+    a.wrapping_mul(1_000_003).wrapping_add(b)
 }
 
 impl HistExec {
@@ -109,6 +112,25 @@ impl v::Executor for HistExec {
         let mut clock = self.clock.lock().unwrap();
         *clock += 1;
         let is_gen = cmd.starts_with("gen ");
+        let digest = |o: &str| -> Vec<u8> {
+            let mut body: Vec<u8> = cmd.as_bytes().to_vec();
+            body.push(0); body.extend_from_slice(o.as_bytes());
+            for d in &info.dirtying {
+                body.push(0);
+                match read_or(d) { Some(c) => { body.push(1); body.extend(c); } None => body.push(2) }
+            }
+            for d in &deps {
+                body.push(0); body.push(3);
+                let mut name = String::from_utf8_lossy(d).to_string();
+                if !name.is_empty() { v::canonicalize_path(&mut name); }
+                match read_or(&name) { Some(c) => { body.push(1); body.extend(c); } None => body.push(2) }
+            }
+            hex16(fnv(&body))
+        };
+        // `rw ...` commands also rewrite their last dirtying input (content computed from the pre-state)
+        let rw_content: Option<(String, Vec<u8>)> = if cmd.starts_with("rw ") {
+            info.dirtying.last().map(|n| (n.clone(), digest(n)))
+        } else { None };
         for o in &info.outs {
             let content = if is_gen {
                 info.explicit.first().and_then(|e| read_or(e)).unwrap_or_default()
@@ -129,6 +151,7 @@ impl v::Executor for HistExec {
             };
             write_file(Path::new(o), &content, *clock);
         }
+        if let Some((name, content)) = rw_content { write_file(Path::new(&name), &content, *clock); }
         let mut output: Vec<Vec<u8>> = vec![];
         if let Some(dp) = &info.depfile {
             // a Makefile-style depfile, with continuations now and then
@@ -152,10 +175,10 @@ impl v::Executor for HistExec {
 
 // ------------------------------------------------------------------ projects
 #[derive(Clone)]
-struct HStep { outs: Vec<String>, rule: String, expl: Vec<String>, impl_: Vec<String>, oo: Vec<String>, val: Vec<String>, flag: String }
+struct HStep { outs: Vec<String>, iouts: Vec<String>, rule: String, expl: Vec<String>, impl_: Vec<String>, oo: Vec<String>, val: Vec<String>, flag: String }
 
 #[derive(Clone)]
-struct HProj { steps: Vec<HStep>, generator: bool, rule_suffix: usize, comment: usize, defaults: Vec<String> }
+struct HProj { steps: Vec<HStep>, generator: bool, fragment: bool, rule_suffix: usize, comment: usize, defaults: Vec<String> }
 
 impl HProj {
     fn manifest(&self) -> String {
@@ -166,11 +189,13 @@ impl HProj {
         s.push_str(&format!("rule cc{sfx}\n  command = cc $flag -c $in -o $out\n  depfile = $out.d\n  deps = gcc\n"));
         s.push_str(&format!("rule cl{sfx}\n  command = cl $flag $in $out\n  deps = msvc\n"));
         s.push_str(&format!("rule rsp{sfx}\n  command = link @$out.rsp $out\n  rspfile = $out.rsp\n  rspfile_content = $flag $in\n"));
-        s.push_str("rule gen\n  command = gen $in $out\n");
+        s.push_str(&format!("rule rw{sfx}\n  command = rw $flag $in -o $out\n"));
+        if !self.fragment { s.push_str("rule gen\n  command = gen $in $out\n"); }
         if self.generator { s.push_str("build build.ninja: gen build.ninja.in\n"); }
         for st in &self.steps {
             s.push_str("build");
             for o in &st.outs { s.push(' '); s.push_str(o); }
+            if !st.iouts.is_empty() { s.push_str(" |"); for o in &st.iouts { s.push(' '); s.push_str(o); } }
             s.push_str(": ");
             s.push_str(&if st.rule == "phony" { "phony".to_string() } else { format!("{}{}", st.rule, sfx) });
             for x in &st.expl { s.push(' '); s.push_str(x); }
@@ -183,7 +208,7 @@ impl HProj {
         if !self.defaults.is_empty() { s.push_str("default"); for d in &self.defaults { s.push(' '); s.push_str(d); } s.push('\n'); }
         s
     }
-    fn all_outs(&self) -> Vec<String> { self.steps.iter().flat_map(|s| s.outs.clone()).collect() }
+    fn all_outs(&self) -> Vec<String> { self.steps.iter().flat_map(|s| s.outs.iter().chain(s.iouts.iter()).cloned().collect::<Vec<_>>()).collect() }
 }
 
 const NSRC: usize = 4;
@@ -192,23 +217,42 @@ const NHDR: usize = 3;
 fn gen_hproj(rng: &mut Rng) -> HProj {
     let n = rng.range(2, 6);
     let mut steps: Vec<HStep> = vec![];
+    // a source file that is ALSO declared as the output of an input-less phony step (CMake style)
+    let phony_src = rng.chance(1, 4);
+    if phony_src {
+        steps.push(HStep { outs: vec!["p0".into()], iouts: vec![], rule: "phony".into(), expl: vec![], impl_: vec![], oo: vec![], val: vec![], flag: String::new() });
+    }
     for i in 0..n {
-        let rule = match rng.below(10) { 0 => "phony", 1..=3 => "plain", 4..=6 => "cc", 7 => "cl", _ => "rsp" }.to_string();
-        let mut st = HStep { outs: vec![format!("o{}", i)], rule, expl: vec![], impl_: vec![], oo: vec![], val: vec![], flag: format!("-f{}", i) };
+        let rule = match rng.below(12) { 0 => "phony", 1..=3 => "plain", 4..=6 => "cc", 7 => "cl", 8 | 9 => "rsp", _ => "rw" }.to_string();
+        let mut st = HStep { outs: vec![format!("o{}", i)], iouts: vec![], rule, expl: vec![], impl_: vec![], oo: vec![], val: vec![], flag: format!("-f{}", i) };
         if rng.chance(1, 6) { st.outs.push(format!("sub/o{}b", i)); }
+        if rng.chance(1, 5) && st.rule != "phony" { st.iouts.push(format!("o{}i", i)); }
         let earlier: Vec<String> = steps.iter().filter(|s| s.rule != "phony").flat_map(|s| s.outs.clone()).collect();
         let earlier_any: Vec<String> = steps.iter().flat_map(|s| s.outs.clone()).collect();
         let pick_src = |rng: &mut Rng| format!("s{}", rng.below(NSRC));
         st.expl.push(if !earlier.is_empty() && rng.chance(1, 2) { earlier[rng.below(earlier.len())].clone() } else { pick_src(rng) });
         if rng.chance(1, 3) { st.expl.push(pick_src(rng)); }
+        if phony_src && rng.chance(1, 3) { if rng.chance(1, 2) { st.expl.push("p0".into()); } else { st.impl_.push("p0".into()); } }
+        // a command that rewrites an input rewrites a file only it reads: its private cache file
+        // `c<i>` (a plain source, or declared as the output of an input-less phony step below)
+        if st.rule == "rw" { st.impl_.push(format!("c{}", i)); }
         if rng.chance(1, 4) { st.impl_.push(if !earlier.is_empty() && rng.chance(1, 2) { earlier[rng.below(earlier.len())].clone() } else { pick_src(rng) }); }
         if rng.chance(1, 4) && !earlier_any.is_empty() { st.oo.push(earlier_any[rng.below(earlier_any.len())].clone()); }
         if rng.chance(1, 6) { st.oo.push(format!("h{}", rng.below(NHDR))); }
         if rng.chance(1, 8) && !earlier_any.is_empty() { st.val.push(earlier_any[rng.below(earlier_any.len())].clone()); }
         steps.push(st);
     }
+    let caches: Vec<String> = steps.iter().filter(|s| s.rule == "rw").map(|s| s.impl_.last().unwrap().clone()).collect();
+    for c in caches {
+        if rng.chance(1, 2) {
+            steps.push(HStep { outs: vec![c], iouts: vec![], rule: "phony".into(), expl: vec![], impl_: vec![], oo: vec![], val: vec![], flag: String::new() });
+        }
+    }
     let defaults = if rng.chance(1, 3) { vec![format!("o{}", rng.below(n))] } else { vec![] };
-    HProj { steps, generator: rng.chance(1, 4), rule_suffix: 0, comment: 0, defaults }
+    // flavours: plain manifest | classic generator (build.ninja: gen build.ninja.in) | a generated
+    // fragment that build.ninja includes, build.ninja itself being a phony output depending on it
+    let flavour = rng.below(8);
+    HProj { steps, generator: flavour < 2, fragment: flavour == 2, rule_suffix: 0, comment: 0, defaults }
 }
 
 fn src_content(rng: &mut Rng, version: usize) -> Vec<u8> {
@@ -288,7 +332,14 @@ pub fn run(ctx: &mut Ctx) {
         let mut version = 1usize;
         let mut ops: Vec<Op> = vec![];
         // initial tree
-        let manifest_file = |p: &HProj| if p.generator { "build.ninja.in" } else { "build.ninja" };
+        let manifest_file = |p: &HProj| if p.fragment { "frag.ninja.in" } else if p.generator { "build.ninja.in" } else { "build.ninja" };
+        if proj.fragment {
+            // the fixed top-level manifest, and a first (empty, older) fragment so that the include works
+            clock += 1; ops.push(Op::W("frag.ninja".into(), clock, b"# empty\n".to_vec()));
+            clock += 1; ops.push(Op::W("build.ninja".into(), clock,
+                b"rule gen\n  command = gen $in $out\nbuild frag.ninja: gen frag.ninja.in\nbuild build.ninja: phony frag.ninja\ninclude frag.ninja\n".to_vec()));
+            ctx.count("with_generated_fragment");
+        }
         clock += 1; ops.push(Op::W(manifest_file(&proj).to_string(), clock, proj.manifest().into_bytes()));
         if proj.generator {
             // bootstrap: a first manifest that only knows how to regenerate itself
@@ -296,6 +347,11 @@ pub fn run(ctx: &mut Ctx) {
             // the .in must be newer-or-different anyway: no record yet => dirty
         }
         for i in 0..NSRC { clock += 1; ops.push(Op::W(format!("s{}", i), clock, src_content(&mut rng, version))); }
+        for st in proj.steps.iter().filter(|s| s.rule == "rw") {
+            clock += 1; ops.push(Op::W(st.impl_.last().unwrap().clone(), clock, b"cache".to_vec())); ctx.count("rw_steps");
+        }
+        let has_p0 = proj.steps.iter().any(|s| s.outs.iter().any(|o| o == "p0"));
+        if has_p0 { clock += 1; ops.push(Op::W("p0".into(), clock, b"cache v1".to_vec())); ctx.count("with_phony_declared_source"); }
         for i in 0..NHDR { if !rng.chance(1, 8) { clock += 1; ops.push(Op::W(format!("h{}", i), clock, format!("hdr{}", i).into_bytes())); } }
         let nops = rng.range(4, 14);
         let mut last_was_invoke = false;
@@ -316,7 +372,10 @@ pub fn run(ctx: &mut Ctx) {
             last_was_invoke = false;
             version += 1;
             clock += 1;
-            if r < 55 { let i = rng.below(NSRC); ops.push(Op::W(format!("s{}", i), clock, src_content(&mut rng, version))); }
+            if r < 55 {
+                if has_p0 && rng.chance(1, 5) { ops.push(Op::W("p0".into(), clock, format!("cache v{}", version).into_bytes())); }
+                else { let i = rng.below(NSRC); ops.push(Op::W(format!("s{}", i), clock, src_content(&mut rng, version))); }
+            }
             else if r < 62 { let i = rng.below(NHDR); ops.push(Op::W(format!("h{}", i), clock, format!("hdr{}v{}", i, version).into_bytes())); }
             else if r < 66 { ops.push(Op::D(format!("h{}", rng.below(NHDR)))); }
             else if r < 69 { ops.push(Op::D(format!("s{}", rng.below(NSRC)))); }
@@ -324,7 +383,12 @@ pub fn run(ctx: &mut Ctx) {
             else if r < 82 { let outs = proj.all_outs(); if !outs.is_empty() { ops.push(Op::W(outs[rng.below(outs.len())].clone(), clock, b"tampered".to_vec())); } }
             else {
                 // manifest edit
-                match rng.below(7) {
+                match rng.below(8) {
+                    7 => {
+                        // drop the last explicit input of a step that has several ($in and rspfile content shrink)
+                        let cands: Vec<usize> = (0..proj.steps.len()).filter(|i| proj.steps[*i].expl.len() > 1).collect();
+                        if !cands.is_empty() { let i = cands[rng.below(cands.len())]; proj.steps[i].expl.pop(); }
+                    }
                     6 => {
                         // change, add or drop the `default` statement
                         let outs: Vec<String> = proj.steps.iter().map(|s| s.outs[0].clone()).collect();
@@ -335,11 +399,16 @@ pub fn run(ctx: &mut Ctx) {
                     2 => { if proj.steps.len() > 1 { let a = rng.below(proj.steps.len() - 1); proj.steps.swap(a, a + 1);
                             // keep references pointing backwards only where needed: a swap may create forward refs (fine: still acyclic)
                           } }
-                    3 => { let i = rng.below(proj.steps.len()); proj.steps[i].flag = format!("-g{}", version); }
+                    3 => {
+                        // change a flag: longer, or shorter than before (response-file content shrinks); prefer rspfile steps
+                        let rsp: Vec<usize> = (0..proj.steps.len()).filter(|i| proj.steps[*i].rule == "rsp").collect();
+                        let i = if !rsp.is_empty() && rng.chance(1, 2) { rsp[rng.below(rsp.len())] } else { rng.below(proj.steps.len()) };
+                        proj.steps[i].flag = if rng.chance(1, 2) { format!("-g{}", version) } else { "-s".to_string() };
+                    }
                     4 => { if proj.steps.len() > 2 { let i = rng.below(proj.steps.len()); let gone = proj.steps.remove(i);
                             proj.defaults.retain(|d| !gone.outs.contains(d));
-                            for st in proj.steps.iter_mut() { for l in [&mut st.expl, &mut st.impl_, &mut st.oo, &mut st.val] { for x in l.iter_mut() { if gone.outs.contains(x) { *x = "s0".into(); } } } } } }
-                    _ => { let i = rng.below(proj.steps.len()); if proj.steps[i].rule != "phony" { proj.steps[i].impl_.push(format!("s{}", rng.below(NSRC))); } }
+                            for st in proj.steps.iter_mut() { for l in [&mut st.expl, &mut st.impl_, &mut st.oo, &mut st.val] { for x in l.iter_mut() { if gone.outs.contains(x) && !x.starts_with('c') { *x = "s0".into(); } } } } } }
+                    _ => { let i = rng.below(proj.steps.len()); if proj.steps[i].rule != "phony" { proj.steps[i].impl_.insert(0, format!("s{}", rng.below(NSRC))); } }
                 }
                 ops.push(Op::W(manifest_file(&proj).to_string(), clock, proj.manifest().into_bytes()));
             }
